@@ -50,6 +50,15 @@ fn main() {
             conn::generate(seed, n, bias, &mut lines, &mut st);
             stats_json = st.json();
         }
+        "conn-duo" => {
+            let mut st = conn::Stats::new();
+            conn::generate_duo(seed, n, &mut lines, &mut st);
+            stats_json = st.json();
+        }
+        "conn-duo-replay" => {
+            let cs: u64 = args.get(2).and_then(|s| s.parse().ok()).unwrap_or(1);
+            lines.push(conn::replay_duo(cs));
+        }
         "conn-pair" => {
             let mut st = conn::Stats::new();
             let bias: u64 = arg_val(&args, "--bias").and_then(|s| s.parse().ok()).unwrap_or(0);
